@@ -184,6 +184,9 @@ func protoOf(s string) string {
 
 // resolve named port on workload: returns (proto, num, ok)
 func (wl *Workload) named(name string) (string, int, bool) {
+	if name == "" {
+		return "", 0, false // a container port without a name is not a port named ""
+	}
 	for _, cp := range wl.Ports {
 		if cp.Name == name {
 			return protoOf(cp.Proto), cp.Num, true
